@@ -70,7 +70,7 @@ def run_case(ctx, f, batch0, keys, fail, same_a=False):
 
 def update_model(ctx):
     f = ctx.repo.func(P + "Parameters._update")
-    problems = {"C04": [], "C05": [], "C02": [], "C03": [], "C01": []}
+    problems = {"C04": [], "C05": [], "C02": [], "C03": [], "C01": [], "C09": []}
     n = 0
     orders = [["a"], ["a", "b"], ["a", "e"], ["e", "a"], ["a", "e", "b"], ["b", "a", "e"]]
     for batch0 in (False, True):
@@ -95,6 +95,9 @@ def update_model(ctx):
                 if len(flushes) > want_flush or (want_flush and not flushes and not fail):
                     problems["C03"].append("%s: the flush is called %d time(s), specification %d: watchers are called %s" % (
                         desc, len(flushes), want_flush, "more than once or too early" if flushes else "never"))
+                if want_flush and not flushes:
+                    problems["C09"].append("%s: the values applied are never announced: the invalidation watchers of the expressions that read them do not run, and the expressions "
+                                           "keep their old result" % desc)
                 if len(flushes) != want_flush:
                     (problems["C04"] if batch0 else problems["C05"]).append("%s: the flush is called %d time(s), specification %d%s" % (
                         desc, len(flushes), want_flush, " (events already applied stay queued)" if want_flush and not flushes else " (delivered inside the enclosing batch)"))
